@@ -62,6 +62,19 @@ pub struct PreState {
     /// temp directory (/dev/shm, a tmpfs), always passed as an absolute path
     #[serde(default)]
     pub other_fs: bool,
+    /// ambient conditions a correct tool does not depend on:
+    /// TMPDIR: 0 unset, 1 "/tmp", 2 a directory that does not exist, 3 a fresh directory in the scratch root
+    #[serde(default)]
+    pub tmpdir: u8,
+    /// umask: 0 leave (022), 1 = 077, 2 = 000, 3 = 027
+    #[serde(default)]
+    pub umask: u8,
+    /// how a relative output path is spelled: 0 plain, 1 "./p", 2 "detour/../p" (detour exists)
+    #[serde(default)]
+    pub path_form: u8,
+    /// the output directory is reached through a symbolic link
+    #[serde(default)]
+    pub via_symlink: bool,
 }
 
 #[derive(Clone, Debug, PartialEq, Eq, Serialize, Deserialize)]
@@ -275,7 +288,7 @@ impl Invocation {
     }
     pub fn args(&self, out: &str) -> Vec<String> {
         let mut a: Vec<String> = Vec::new();
-        let mut kv = |a: &mut Vec<String>, k: &str, v: &str| {
+        let kv = |a: &mut Vec<String>, k: &str, v: &str| {
             if self.eq_form {
                 a.push(format!("{k}={v}"));
             } else {
@@ -354,6 +367,10 @@ impl Engine for CliSim {
             absolute: r.bool(),
             trailing_slash: r.chance(1, 4),
             other_fs: r.chance(1, 6) && std::path::Path::new("/dev/shm").is_dir(),
+            tmpdir: if r.chance(1, 3) { r.range(1, 3) as u8 } else { 0 },
+            umask: if r.chance(1, 4) { r.range(1, 3) as u8 } else { 0 },
+            path_form: if r.chance(1, 4) { r.range(1, 2) as u8 } else { 0 },
+            via_symlink: r.chance(1, 8),
         };
         let n_inv = *r.pick(&[1usize, 1, 1, 2, 2, 3]);
         let mut invocations: Vec<Invocation> = Vec::new();
@@ -480,9 +497,30 @@ impl Engine for CliSim {
             c.twice = false;
             v.push(c);
         }
-        if t.pre.exists || !t.pre.unrelated.is_empty() || t.pre.absolute || t.pre.trailing_slash || t.pre.other_fs || t.pre.out_rel != "out" {
+        if t.pre.exists
+            || !t.pre.unrelated.is_empty()
+            || t.pre.absolute
+            || t.pre.trailing_slash
+            || t.pre.other_fs
+            || t.pre.out_rel != "out"
+            || t.pre.tmpdir != 0
+            || t.pre.umask != 0
+            || t.pre.path_form != 0
+            || t.pre.via_symlink
+        {
             let mut c = t.clone();
-            c.pre = PreState { out_rel: "out".into(), exists: false, unrelated: vec![], absolute: false, trailing_slash: false, other_fs: false };
+            c.pre = PreState {
+                out_rel: "out".into(),
+                exists: false,
+                unrelated: vec![],
+                absolute: false,
+                trailing_slash: false,
+                other_fs: false,
+                tmpdir: 0,
+                umask: 0,
+                path_form: 0,
+                via_symlink: false,
+            };
             v.push(c);
             let mut c = t.clone();
             c.pre.unrelated.clear();
@@ -572,6 +610,24 @@ fn scenario(t: &CliTrace, fault: Option<&(usize, Fault)>, o: &mut Outcome, label
     } else {
         root.join(&t.pre.out_rel)
     };
+    // the output directory reached through a symbolic link: the real directory exists, the
+    // given path is a link to it (only for outputs inside the scratch root)
+    let mut link_target: Option<PathBuf> = None;
+    if t.pre.via_symlink && !t.pre.other_fs {
+        let real_dir = root.join("real-output-dir");
+        std::fs::create_dir_all(&real_dir).expect("symlink target");
+        if let Some(parent) = out_dir.parent() {
+            std::fs::create_dir_all(parent).expect("parents of the link");
+        }
+        std::os::unix::fs::symlink(&real_dir, &out_dir).expect("symlink to output dir");
+        link_target = Some(real_dir);
+    }
+    if t.pre.path_form == 2 {
+        std::fs::create_dir_all(root.join("detour")).expect("detour");
+    }
+    if t.pre.tmpdir == 3 {
+        std::fs::create_dir_all(root.join("tmp-here")).expect("tmpdir");
+    }
     if t.pre.exists {
         std::fs::create_dir_all(&out_dir).expect("pre-state dir");
         for (name, content) in &t.pre.unrelated {
@@ -603,15 +659,45 @@ fn scenario(t: &CliTrace, fault: Option<&(usize, Fault)>, o: &mut Outcome, label
         // residue of an earlier fault (a target that is a directory or a symlink to /dev/full)
         // makes this invocation a faulted one too
         let residue = inv.files().iter().any(|f| matches!(before.get(f).map(|s| s.as_str()), Some("dir") | Some("symlink")));
-        let mut out_arg = if t.pre.absolute || t.pre.other_fs { out_dir.to_string_lossy().to_string() } else { t.pre.out_rel.clone() };
+        let mut out_arg = if t.pre.absolute || t.pre.other_fs {
+            out_dir.to_string_lossy().to_string()
+        } else {
+            match t.pre.path_form {
+                1 => format!("./{}", t.pre.out_rel),
+                2 => format!("detour/../{}", t.pre.out_rel),
+                _ => t.pre.out_rel.clone(),
+            }
+        };
         if t.pre.trailing_slash {
             out_arg.push('/');
         }
         let report = root.join(format!("report-{i}.json"));
         #[allow(unused_mut)]
-        let mut cmd = Command::new(std::env::var("CLISIM_BIN").expect("CLISIM_BIN"));
+        let bin = std::env::var("CLISIM_BIN").expect("CLISIM_BIN");
+        let mut cmd = if t.pre.umask == 0 {
+            Command::new(&bin)
+        } else {
+            // the shell sets the file-creation mask and then *becomes* the tool (exec), so the
+            // seam's counters start with the tool's own first system call
+            let mask = ["022", "077", "000", "027"][t.pre.umask as usize & 3];
+            let mut c = Command::new("/bin/sh");
+            c.arg("-c").arg(format!("umask {mask}; exec \"$0\" \"$@\"")).arg(&bin);
+            c
+        };
         cmd.args(inv.args(&out_arg)).current_dir(&root).env_clear();
         cmd.env("PATH", "/usr/bin:/bin");
+        match t.pre.tmpdir {
+            1 => {
+                cmd.env("TMPDIR", "/tmp");
+            }
+            2 => {
+                cmd.env("TMPDIR", root.join("no-such-tmp"));
+            }
+            3 => {
+                cmd.env("TMPDIR", root.join("tmp-here"));
+            }
+            _ => {}
+        }
         if let Ok(shim) = std::env::var("CLISIM_SHIM") {
             cmd.env("LD_PRELOAD", shim);
             cmd.env("DETSYS_RAND_SEED", (t.rand_seed.wrapping_add(i as u64)).to_string());
@@ -669,6 +755,7 @@ fn scenario(t: &CliTrace, fault: Option<&(usize, Fault)>, o: &mut Outcome, label
         }
         res.final_snapshot = after;
     }
+    let _ = link_target;
     let _ = std::fs::remove_dir_all(&root);
     if t.pre.other_fs {
         let _ = std::fs::remove_dir_all(&shm_root);
